@@ -6,6 +6,8 @@ BytesIO) and `Earverif.Bw64.readFile` (Bw64Reader on a BytesIO).  Lemmas are in
 `Earverif/Proofs/C09*.lean`.
 -/
 import Earverif.Proofs.C09Read
+import Earverif.Proofs.C09Samples
+import Earverif.Props.C18
 
 namespace Earverif.Bw64
 
@@ -155,19 +157,10 @@ theorem fuel_ok {pre f : Bytes} {cs : List Chunk} (hf : f = pre ++ encAll cs) (h
 
 /-! ### the property -/
 
-/-- **C09 (round trip).**  For every PCM format the writer supports (16/24/32 bit, at least one channel,
-positive rate, fields within their `struct` widths), every history of `write` calls (any partition of the
-encoded sample bytes into blocks, empty blocks included) and chunk setter calls, metadata chunks given to
-the constructor and/or pending at `close` (each absent, empty = treated as absent, or of any length below
-2^32; chna entries as `AudioID.asByteArray` lays them out), with or without `forceBw64`, whole frames and
-fewer than 2^63 data bytes in total:
-
-the reader accepts the finalised file **without any warning** and returns the same format, a frame count
-of `bytes / blockAlignment`, exactly the written sample bytes, and for each metadata chunk exactly the value
-that was supplied (`effChna` / `effMeta`: the constructor's value if it was written there, else the value
-pending at `close`; `None` if neither is truthy).  The container id is `BW64` whenever `forceBw64` is set
-(or the RIFF size does not fit 32 bits), else `RIFF`. -/
-theorem C09_roundtrip (fmt : Fmt) (c0 : Option (List ChnaEntry)) (a0 b0 : Option Bytes) (force : Bool)
+/-- **What the reader's constructor does on a finalised file** (the workhorse of `C09_roundtrip`, with the
+intermediate results exposed): header, chunk walk without warnings, the parse result, and where the data
+chunk lies (`dpos` = offset of its id; the sample bytes start at `dpos + 8`). -/
+theorem C09_open (fmt : Fmt) (c0 : Option (List ChnaEntry)) (a0 b0 : Option Bytes) (force : Bool)
     (ops : List WOp)
     (hfmt : FmtOK fmt)
     (hc0 : ChnaOK c0) (hcF : ChnaOK (pendChna c0 ops))
@@ -175,10 +168,16 @@ theorem C09_roundtrip (fmt : Fmt) (c0 : Option (List ChnaEntry)) (a0 b0 : Option
     (hb0 : BytesOK b0) (hbF : BytesOK (pendBext b0 ops))
     (hframes : (dataOf ops).length % fmt.blockAlign = 0)
     (hdata : (dataOf ops).length < 2 ^ 63) :
-    ∃ ff, (ff = idRIFF ∨ ff = idBW64) ∧ (force = true → ff = idBW64) ∧
-      readFile (closedFile fmt c0 a0 b0 force ops) =
+    ∃ (ff : Bytes) (ds : Option Ds64) (p : Nat) (t : Table) (dpos : Nat) (P R : Bytes),
+      (ff = idRIFF ∨ ff = idBW64) ∧ (force = true → ff = idBW64) ∧
+      readHead (closedFile fmt c0 a0 b0 force ops) = .ok (ff, ds, p) ∧
+      readChunks (closedFile fmt c0 a0 b0 force ops) ds ((closedFile fmt c0 a0 b0 force ops).length + 1) p [] [] =
+        .ok (t, []) ∧
+      finishRead (closedFile fmt c0 a0 b0 force ops) ff ds t [] =
         .ok (⟨ff, ⟨1, fmt.channels, fmt.rate, fmt.bits⟩, (dataOf ops).length / fmt.blockAlign, dataOf ops,
-              effChna c0 (pendChna c0 ops), effMeta a0 (pendAxml a0 ops), effMeta b0 (pendBext b0 ops)⟩, []) := by
+              effChna c0 (pendChna c0 ops), effMeta a0 (pendAxml a0 ops), effMeta b0 (pendBext b0 ops)⟩, []) ∧
+      tlookup t idData = some ((dataOf ops).length, dpos) ∧
+      closedFile fmt c0 a0 b0 force ops = P ++ (dataOf ops ++ R) ∧ P.length = dpos + 8 := by
   obtain ⟨hop, hoc, hoa, hob⟩ := openW_opened fmt c0 a0 b0 force
   obtain ⟨hrun, hrc, hra, hrb⟩ := runW_opened ops hop
   rw [hoc] at hrc; rw [hoa] at hra; rw [hob] at hrb
@@ -189,20 +188,18 @@ theorem C09_roundtrip (fmt : Fmt) (c0 : Option (List ChnaEntry)) (a0 b0 : Option
   have hlate := lateB_eq hcF c0.isSome (truthy a0) (truthy b0) (pendAxml a0 ops) (pendBext b0 ops)
   have hpl := preB_length_le hc0 ha0 hb0
   have hll := lateB_length_le c0.isSome (truthy a0) (truthy b0) hcF haF hbF
-  simp only [closedFile]
-  rw [hlay]
-  simp only []
+  generalize hfile0 : closedFile fmt c0 a0 b0 force ops = f
+  simp only [closedFile] at hfile0
+  rw [hlay] at hfile0
+  simp only [] at hfile0
   generalize hR : riffSizeOf (preB c0 a0 b0) (dataOf ops)
-    (lateB c0.isSome (truthy a0) (truthy b0) (pendChna c0 ops) (pendAxml a0 ops) (pendBext b0 ops)) = R
+    (lateB c0.isSome (truthy a0) (truthy b0) (pendChna c0 ops) (pendAxml a0 ops) (pendBext b0 ops)) = R at hfile0
   have hRlt : R < 2 ^ 64 := by rw [← hR]; unfold riffSizeOf; omega
   have hnR : (dataOf ops).length ≤ R := by rw [← hR]; unfold riffSizeOf; omega
-  split
+  split at hfile0
   · -- BW64
     rename_i hbw
-    refine ⟨idBW64, Or.inr rfl, fun _ => rfl, ?_⟩
-    generalize hfile : idBW64 ++ (ffff ++ (idWAVE ++ (ds64Chunk R (dataOf ops).length ++ (fmtChunk fmt ++
-      (preB c0 a0 b0 ++ (idData ++ (ffff ++ (dataOf ops ++ (pad (dataOf ops).length ++
-        lateB c0.isSome (truthy a0) (truthy b0) (pendChna c0 ops) (pendAxml a0 ops) (pendBext b0 ops)))))))))) = f
+    have hfile := hfile0
     have hds : ∀ d, (some (⟨R, (dataOf ops).length, []⟩ : Ds64)) = some d → d.table = [] := by
       intro d hd; cases hd; rfl
     have hf : f = (idBW64 ++ (ffff ++ (idWAVE ++ ds64Chunk R (dataOf ops).length))) ++
@@ -227,20 +224,18 @@ theorem C09_roundtrip (fmt : Fmt) (c0 : Option (List ChnaEntry)) (a0 b0 : Option
       rw [List.append_nil]; exact hf
     have hfin := finishRead_written (w := []) (ff := idBW64) (ds := some ⟨R, (dataOf ops).length, []⟩) hfmt hc0 hcF hf'
       (by simp) (by intro d hd; cases hd; rfl) hframes
-    rw [hpl48] at hfin
-    simp only [readFile, hhead, hw, hfin]
+    obtain ⟨dpos, P, Rr, hd1, hd2, hd3⟩ := read_data_pos hf' (by simp)
+    rw [hpl48] at hfin hd1
+    exact ⟨idBW64, _, 48, _, dpos, P, Rr, Or.inr rfl, fun _ => rfl, hhead, hw, hfin, hd1, hd2, hd3⟩
   · -- RIFF
     rename_i hbw
+    have hfile := hfile0
     have hforce : force = false := by
       cases force
       · rfl
       · simp at hbw
     have hR32 : R < 2 ^ 32 := by
       simp at hbw; omega
-    refine ⟨idRIFF, Or.inl rfl, fun h => by simp [hforce] at h, ?_⟩
-    generalize hfile : idRIFF ++ (le 4 R ++ (idWAVE ++ (junkChunk ++ (fmtChunk fmt ++
-      (preB c0 a0 b0 ++ (idData ++ (le 4 (dataOf ops).length ++ (dataOf ops ++ (pad (dataOf ops).length ++
-        lateB c0.isSome (truthy a0) (truthy b0) (pendChna c0 ops) (pendAxml a0 ops) (pendBext b0 ops)))))))))) = f
     have hds : ∀ d, (none : Option Ds64) = some d → d.table = [] := by intro d hd; cases hd
     have hf : f = (idRIFF ++ (le 4 R ++ idWAVE)) ++
         encAll ([junkC] ++ bodyC fmt c0 a0 b0 (dataOf ops).length (dataOf ops) (pad (dataOf ops).length) (pendChna c0 ops) (pendAxml a0 ops)
@@ -266,8 +261,37 @@ theorem C09_roundtrip (fmt : Fmt) (c0 : Option (List ChnaEntry)) (a0 b0 : Option
       rw [List.append_nil]; exact hf
     have hfin := finishRead_written (w := []) (ff := idRIFF) (ds := none) hfmt hc0 hcF hf'
       (by intro x hx; rw [List.mem_singleton.1 hx]; rfl) (by intro d hd; cases hd) hframes
-    rw [hpl12] at hfin
-    simp only [readFile, hhead, hw, hfin]
+    obtain ⟨dpos, P, Rr, hd1, hd2, hd3⟩ := read_data_pos hf' (by intro x hx; rw [List.mem_singleton.1 hx]; rfl)
+    rw [hpl12] at hfin hd1
+    exact ⟨idRIFF, none, 12, _, dpos, P, Rr, Or.inl rfl, fun h => by simp [hforce] at h, hhead, hw, hfin, hd1, hd2, hd3⟩
+
+/-- **C09 (round trip).**  For every PCM format the writer supports (16/24/32 bit, at least one channel,
+positive rate, fields within their `struct` widths), every history of `write` calls (any partition of the
+encoded sample bytes into blocks, empty blocks included) and chunk setter calls, metadata chunks given to
+the constructor and/or pending at `close` (each absent, empty = treated as absent, or of any length below
+2^32; chna entries as `AudioID.asByteArray` lays them out), with or without `forceBw64`, whole frames and
+fewer than 2^63 data bytes in total:
+
+the reader accepts the finalised file **without any warning** and returns the same format, a frame count
+of `bytes / blockAlignment`, exactly the written sample bytes, and for each metadata chunk exactly the value
+that was supplied (`effChna` / `effMeta`: the constructor's value if it was written there, else the value
+pending at `close`; `None` if neither is truthy).  The container id is `BW64` whenever `forceBw64` is set
+(or the RIFF size does not fit 32 bits), else `RIFF`. -/
+theorem C09_roundtrip (fmt : Fmt) (c0 : Option (List ChnaEntry)) (a0 b0 : Option Bytes) (force : Bool)
+    (ops : List WOp)
+    (hfmt : FmtOK fmt)
+    (hc0 : ChnaOK c0) (hcF : ChnaOK (pendChna c0 ops))
+    (ha0 : BytesOK a0) (haF : BytesOK (pendAxml a0 ops))
+    (hb0 : BytesOK b0) (hbF : BytesOK (pendBext b0 ops))
+    (hframes : (dataOf ops).length % fmt.blockAlign = 0)
+    (hdata : (dataOf ops).length < 2 ^ 63) :
+    ∃ ff, (ff = idRIFF ∨ ff = idBW64) ∧ (force = true → ff = idBW64) ∧
+      readFile (closedFile fmt c0 a0 b0 force ops) =
+        .ok (⟨ff, ⟨1, fmt.channels, fmt.rate, fmt.bits⟩, (dataOf ops).length / fmt.blockAlign, dataOf ops,
+              effChna c0 (pendChna c0 ops), effMeta a0 (pendAxml a0 ops), effMeta b0 (pendBext b0 ops)⟩, []) := by
+  obtain ⟨ff, ds, p, t, dpos, P, R, h1, h2, hhead, hw, hfin, -, -, -⟩ :=
+    C09_open fmt c0 a0 b0 force ops hfmt hc0 hcF ha0 haF hb0 hbF hframes hdata
+  exact ⟨ff, h1, h2, by simp only [readFile, hhead, hw, hfin]⟩
 
 /-! ### reading the statement in the property's terms -/
 
@@ -281,6 +305,230 @@ theorem effMeta_late (v : Option Bytes) : effMeta none v = if truthy v then v el
 
 theorem effChna_open (c : Option (List ChnaEntry)) : effChna c c = c := by unfold effChna; split <;> rfl
 theorem effChna_late (c : Option (List ChnaEntry)) : effChna none c = c := by simp [effChna]
+
+/-! ### the driver's gates and the theorem hypotheses
+
+`Fmt.packable`, `chnaPackable`, `bytesPackable` (Model/Bw64Writer.lean) say "`struct.pack` does not raise";
+the theorems need `FmtOK`, `ChnaOK`, `BytesOK`.  The exact relations: -/
+
+/-- `FmtOK` = packable + a bit depth `FormatInfoChunk` accepts + at least one channel + positive rate
+(`bits < 2^16` is implied by the bit depth). -/
+theorem fmtOK_iff_packable (f : Fmt) :
+    FmtOK f ↔ (f.packable = true ∧ (f.bits = 16 ∨ f.bits = 24 ∨ f.bits = 32) ∧ 1 ≤ f.channels ∧ 1 ≤ f.rate) := by
+  constructor
+  · rintro ⟨hb, hc, hr, h1, h2, h3, h4⟩
+    refine ⟨?_, hb, hc, hr⟩
+    simp only [Fmt.packable, Bool.and_eq_true, decide_eq_true_eq]
+    refine ⟨⟨⟨⟨h1, h2⟩, h3⟩, h4⟩, ?_⟩
+    rcases hb with h | h | h <;> rw [h] <;> norm_num
+  · rintro ⟨hp, hb, hc, hr⟩
+    simp only [Fmt.packable, Bool.and_eq_true, decide_eq_true_eq] at hp
+    obtain ⟨⟨⟨⟨h1, h2⟩, h3⟩, h4⟩, -⟩ := hp
+    exact ⟨hb, hc, hr, h1, h2, h3, h4⟩
+
+/-- the executable test the driver reports is exactly `FmtOK` -/
+theorem fmtOkB_iff (f : Fmt) : f.okB = true ↔ FmtOK f := by
+  constructor
+  · intro h
+    simp only [Fmt.okB, Bool.and_eq_true, Bool.or_eq_true, beq_iff_eq, decide_eq_true_eq] at h
+    obtain ⟨⟨⟨⟨⟨⟨hb, hc⟩, hr⟩, h1⟩, h2⟩, h3⟩, h4⟩ := h
+    exact ⟨by omega, hc, hr, h1, h2, h3, h4⟩
+  · rintro ⟨hb, hc, hr, h1, h2, h3, h4⟩
+    simp only [Fmt.okB, Bool.and_eq_true, Bool.or_eq_true, beq_iff_eq, decide_eq_true_eq]
+    exact ⟨⟨⟨⟨⟨⟨by omega, hc⟩, hr⟩, h1⟩, h2⟩, h3⟩, h4⟩
+
+theorem entryOK_iff (e : ChnaEntry) :
+    e.OK ↔ (e.trackIndex < 2 ^ 16 ∧ e.rest.length = 38 ∧ e.warns = false) := by
+  unfold ChnaEntry.OK ChnaEntry.warns
+  have h1 : acPrefix = [65, 67, 95] := rfl
+  have h2 : suffix00 = [95, 48, 48] := rfl
+  rw [h1, h2]
+  constructor
+  · rintro ⟨a, b, c⟩
+    refine ⟨a, b, ?_⟩
+    by_cases hp : List.take 3 (List.take 14 (List.drop 14 e.enc)) = [65, 67, 95] <;>
+      by_cases hs : List.drop 11 (List.take 14 (List.drop 14 e.enc)) = [95, 48, 48] <;> simp_all
+  · rintro ⟨a, b, c⟩
+    refine ⟨a, b, ?_⟩
+    by_cases hp : List.take 3 (List.take 14 (List.drop 14 e.enc)) = [65, 67, 95] <;>
+      by_cases hs : List.drop 11 (List.take 14 (List.drop 14 e.enc)) = [95, 48, 48] <;> simp_all
+
+/-- `ChnaOK` = packable + no entry the reader warns about (an `AC_` reference without `_00`; never produced
+by `AudioID.asByteArray`). -/
+theorem chnaOK_iff_packable (c : Option (List ChnaEntry)) :
+    ChnaOK c ↔ (chnaPackable c = true ∧ ∀ es, c = some es → ∀ e ∈ es, e.warns = false) := by
+  cases c with
+  | none => simp [ChnaOK, chnaPackable]
+  | some es =>
+    simp only [ChnaOK, chnaPackable, Bool.and_eq_true, decide_eq_true_eq, List.all_eq_true, beq_iff_eq,
+      Option.some.injEq, entryOK_iff]
+    constructor
+    · rintro ⟨hl, h⟩
+      exact ⟨⟨hl, fun e he => ⟨(h e he).1, (h e he).2.1⟩⟩, fun es' hes e he => (h e (hes ▸ he)).2.2⟩
+    · rintro ⟨⟨hl, h⟩, hw⟩
+      exact ⟨hl, fun e he => ⟨(h e he).1, (h e he).2, hw es rfl e he⟩⟩
+
+theorem chnaOkB_iff (c : Option (List ChnaEntry)) : chnaOkB c = true ↔ ChnaOK c := by
+  cases c with
+  | none => simp [ChnaOK, chnaOkB]
+  | some es =>
+    simp only [ChnaOK, chnaOkB, Bool.and_eq_true, decide_eq_true_eq, List.all_eq_true, beq_iff_eq, entryOK_iff,
+      Bool.not_eq_true']
+    constructor
+    · rintro ⟨hl, h⟩
+      exact ⟨hl, fun e he => ⟨(h e he).1.1, (h e he).1.2, (h e he).2⟩⟩
+    · rintro ⟨hl, h⟩
+      exact ⟨hl, fun e he => ⟨⟨(h e he).1, (h e he).2.1⟩, (h e he).2.2⟩⟩
+
+/-- `BytesOK` is exactly "packable" -/
+theorem bytesOK_iff_packable (v : Option Bytes) : BytesOK v ↔ bytesPackable v = true := by
+  cases v <;> simp [BytesOK, bytesPackable]
+
+/-- a setter call is packable iff the value it sets satisfies `bytesPackable`/`chnaPackable`; `write`
+calls always are (their constraint is `BlocksOK`/whole frames) -/
+theorem wop_packable (op : WOp) : op.packable = true ↔
+    match op with
+    | .write _ => True
+    | .setChna v => chnaPackable v = true
+    | .setAxml v => BytesOK v
+    | .setBext v => BytesOK v := by
+  cases op <;> simp [WOp.packable, bytesOK_iff_packable]
+
+/-! ### samples: what is written is what is read, through `decode ∘ encode` -/
+
+open Earverif.Pcm in
+/-- **C09 (samples).**  For every supported format, every history of sample-level `write` calls (each block
+any number of frames — zero included — of `channels` float samples; any partition of the audio into calls)
+and chunk setter calls, chunks and `forceBw64` as in `C09_roundtrip`:
+
+* no call raises and `close` yields a file (`closedFileS = some file`);
+* the reader opens it without warning, with the written format, `N` = number of frames written, the chunk
+  contents as in `C09_roundtrip`, and cursor constants `k` that are well formed (`Cursor.WF k N`: the data
+  chunk holds exactly `N` whole frames inside the file — the hypothesis of C18's `ops_refine`);
+* `read(n)` with the cursor at any frame `c ≤ N` returns (no exception) frames `[c, min (c+n) N)` of the
+  written audio, every sample mapped through `decode ∘ encode` (`Pcm.decode b (Pcm.encode b x)`, for which
+  `encode_within_step`, `encode_clipped` and `decode_encode_representable` of C16 give: within one
+  quantisation step + 2^-54, exactly ±1 when clipped, exactly `x` when `x` is representable), and leaves the
+  cursor at `min (c+n) N`. -/
+theorem C09_samples_roundtrip (fmt : Fmt) (c0 : Option (List ChnaEntry)) (a0 b0 : Option Bytes) (force : Bool)
+    (sops : List SOp)
+    (hfmt : FmtOK fmt)
+    (hblocks : BlocksOK fmt.channels sops)
+    (hc0 : ChnaOK c0) (hcF : ChnaOK (pendChnaS c0 sops))
+    (ha0 : BytesOK a0) (haF : BytesOK (pendAxmlS a0 sops))
+    (hb0 : BytesOK b0) (hbF : BytesOK (pendBextS b0 sops))
+    (hdata : fmt.blockAlign * (framesOf sops).length < 2 ^ 63) :
+    ∃ (file ff data : Bytes) (k : Cursor.Cfg),
+      closedFileS fmt c0 a0 b0 force sops = some file ∧
+      (ff = idRIFF ∨ ff = idBW64) ∧ (force = true → ff = idBW64) ∧
+      openReader file =
+        .ok (⟨ff, ⟨1, fmt.channels, fmt.rate, fmt.bits⟩, (framesOf sops).length, data,
+              effChna c0 (pendChnaS c0 sops), effMeta a0 (pendAxmlS a0 sops), effMeta b0 (pendBextS b0 sops)⟩, k, []) ∧
+      encodeBytes fmt.bits (framesOf sops).flatten = some data ∧
+      Cursor.WF k ((framesOf sops).length : Int) ∧ k.A = (fmt.blockAlign : Int) ∧
+      ∀ c n : Nat, c ≤ (framesOf sops).length →
+        readSamples file ⟨1, fmt.channels, fmt.rate, fmt.bits⟩ k (k.data + k.A * (c : Int)) (n : Int) =
+          (k.data + k.A * (min (c + n) (framesOf sops).length : Nat),
+           some ((((framesOf sops).drop c).take n).map (·.map (fun x => decode fmt.bits (encode fmt.bits x))))) := by
+  have hdepth : Depth fmt.bits := hfmt.bits
+  have hch : 0 < fmt.channels := hfmt.ch
+  obtain ⟨wops, henc, hdat, hrows, pc, pa, pb⟩ := encOps_spec fmt hdepth hch sops hblocks
+  obtain ⟨hlen, -⟩ := decode_slice fmt.bits fmt.channels hdepth hch (framesOf sops) hrows (dataOf wops) hdat 0 0
+  have hA : fmt.blockAlign = fmt.bits / 8 * fmt.channels := by
+    unfold Fmt.blockAlign; rcases hdepth with h | h | h <;> rw [h] <;> omega
+  have hApos : 0 < fmt.blockAlign := by
+    rw [hA]; rcases hdepth with h | h | h <;> rw [h] <;> omega
+  set N := (framesOf sops).length with hN
+  have hlen' : (dataOf wops).length = fmt.blockAlign * N := by rw [hlen, hA]
+  rw [← pc c0] at hcF; rw [← pa a0] at haF; rw [← pb b0] at hbF
+  obtain ⟨ff, ds, p, t, dpos, P, R, h1, h2, hhead, hw, hfin, hd1, hd2, hd3⟩ :=
+    C09_open fmt c0 a0 b0 force wops hfmt hc0 hcF ha0 haF hb0 hbF
+      (by rw [hlen']; exact Nat.mul_mod_right _ _) (by rw [hlen']; exact hdata)
+  have hfr : (dataOf wops).length / fmt.blockAlign = N := by
+    rw [hlen']; exact Nat.mul_div_cancel_left _ hApos
+  rw [hfr] at hfin
+  set file := closedFile fmt c0 a0 b0 force wops with hfile
+  refine ⟨file, ff, dataOf wops,
+    ⟨((dpos + 8 : Nat) : Int), ((fmt.channels * fmt.bits / 8 : Nat) : Int), ((dataOf wops).length : Int), (file.length : Int)⟩,
+    ?_, h1, h2, ?_, hdat, ?_, rfl, ?_⟩
+  · rw [closedFileS_eq, henc]; rfl
+  · simp only [openReader, hhead, hw, hfin, hd1]
+    rw [pc, pa, pb]
+  · refine ⟨?_, by omega, ?_, ?_⟩
+    · show (0 : Int) < ((fmt.channels * fmt.bits / 8 : Nat) : Int)
+      have : 0 < fmt.channels * fmt.bits / 8 := hApos
+      exact_mod_cast this
+    · show (((dataOf wops).length : Nat) : Int) = ((fmt.channels * fmt.bits / 8 : Nat) : Int) * (N : Int)
+      have : (dataOf wops).length = fmt.channels * fmt.bits / 8 * N := hlen'
+      exact_mod_cast this
+    · show ((dpos + 8 : Nat) : Int) + (((dataOf wops).length : Nat) : Int) ≤ (file.length : Int)
+      have : dpos + 8 + (dataOf wops).length ≤ file.length := by
+        rw [hd2]; simp only [List.length_append]; omega
+      exact_mod_cast this
+  · intro c n hc
+    have hWF : Cursor.WF ⟨((dpos + 8 : Nat) : Int), ((fmt.channels * fmt.bits / 8 : Nat) : Int),
+        ((dataOf wops).length : Int), (file.length : Int)⟩ (N : Int) := by
+      refine ⟨?_, by omega, ?_, ?_⟩
+      · show (0 : Int) < ((fmt.channels * fmt.bits / 8 : Nat) : Int)
+        have : 0 < fmt.channels * fmt.bits / 8 := hApos
+        exact_mod_cast this
+      · show (((dataOf wops).length : Nat) : Int) = ((fmt.channels * fmt.bits / 8 : Nat) : Int) * (N : Int)
+        have : (dataOf wops).length = fmt.channels * fmt.bits / 8 * N := hlen'
+        exact_mod_cast this
+      · show ((dpos + 8 : Nat) : Int) + (((dataOf wops).length : Nat) : Int) ≤ (file.length : Int)
+        have : dpos + 8 + (dataOf wops).length ≤ file.length := by
+          rw [hd2]; simp only [List.length_append]; omega
+        exact_mod_cast this
+    have hr := Cursor.read_spec hWF (c : Int) (n : Int) (by omega) (by exact_mod_cast hc) (by omega)
+    simp only at hr
+    obtain ⟨r1, r2, r3, -, -, r6, r7⟩ := hr
+    -- the number of frames actually read
+    set m : Nat := min n (N - c) with hm
+    have hs1 : (Cursor.specRead (N : Int) (c : Int) (n : Int)).1 = ((min (c + n) N : Nat) : Int) := by
+      simp only [Cursor.specRead]; split <;> omega
+    have hs22 : (Cursor.specRead (N : Int) (c : Int) (n : Int)).2.2 = (m : Int) := by
+      rw [r7]; split <;> omega
+    simp only [readSamples]
+    rw [r1, r2, r3, r6, hs1, hs22]
+    have e1 : (((dpos + 8 : Nat) : Int) + ((fmt.channels * fmt.bits / 8 : Nat) : Int) * (c : Int)).toNat =
+        P.length + fmt.channels * fmt.bits / 8 * c := by
+      rw [hd3]; omega
+    have e2 : (((fmt.channels * fmt.bits / 8 : Nat) : Int) * (m : Int)).toNat = fmt.channels * fmt.bits / 8 * m := by
+      have : ((fmt.channels * fmt.bits / 8 : Nat) : Int) * (m : Int) = ((fmt.channels * fmt.bits / 8 * m : Nat) : Int) := by
+        push_cast; rfl
+      rw [this, Int.toNat_natCast]
+    show (_, framesAt file fmt.bits fmt.channels _ _) = _
+    rw [e1, e2, framesAt_written hd2 fmt.bits fmt.channels hdepth hch (framesOf sops) hrows hdat c m (by omega)]
+    congr 3
+    -- taking `m` or `n` frames of the remaining `N - c` is the same
+    by_cases hnm : n ≤ N - c
+    · rw [show m = n by omega]
+    · have hl : ((framesOf sops).drop c).length ≤ m := by simp only [List.length_drop]; omega
+      have hl' : ((framesOf sops).drop c).length ≤ n := by simp only [List.length_drop]; omega
+      rw [List.take_of_length_le hl, List.take_of_length_le hl']
+
+open Earverif.Pcm in
+/-- Reading the whole file back in one `read(len(reader))` from the cursor position the constructor leaves
+(frame 0): every written frame, through `decode ∘ encode`, in order — for any partition into `write` calls. -/
+theorem C09_samples_read_all (fmt : Fmt) (c0 : Option (List ChnaEntry)) (a0 b0 : Option Bytes) (force : Bool)
+    (sops : List SOp)
+    (hfmt : FmtOK fmt)
+    (hblocks : BlocksOK fmt.channels sops)
+    (hc0 : ChnaOK c0) (hcF : ChnaOK (pendChnaS c0 sops))
+    (ha0 : BytesOK a0) (haF : BytesOK (pendAxmlS a0 sops))
+    (hb0 : BytesOK b0) (hbF : BytesOK (pendBextS b0 sops))
+    (hdata : fmt.blockAlign * (framesOf sops).length < 2 ^ 63) :
+    ∃ (file : Bytes) (pr : Parsed) (k : Cursor.Cfg),
+      closedFileS fmt c0 a0 b0 force sops = some file ∧ openReader file = .ok (pr, k, []) ∧
+      pr.frames = (framesOf sops).length ∧
+      (readSamples file pr.fmt k k.data (pr.frames : Int)).2 =
+        some ((framesOf sops).map (·.map (fun x => decode fmt.bits (encode fmt.bits x)))) := by
+  obtain ⟨file, ff, data, k, h1, -, -, h4, -, -, -, h8⟩ :=
+    C09_samples_roundtrip fmt c0 a0 b0 force sops hfmt hblocks hc0 hcF ha0 haF hb0 hbF hdata
+  refine ⟨file, _, k, h1, h4, rfl, ?_⟩
+  have := h8 0 (framesOf sops).length (Nat.zero_le _)
+  simp only [Nat.cast_zero, Int.mul_zero, Int.add_zero, List.drop_zero, List.take_length] at this
+  simp only [this]
 
 /-! ### non-vacuity: concrete inputs satisfy the hypotheses, and the model computes on them -/
 
@@ -320,5 +568,22 @@ chna 8+44, axml 8+3+1; an empty `b''` value is not written at all -/
 example : (closedFile exFmt none none (some exBext) false
       [.write [1, 2, 3], .setChna (some [exEntry]), .write [], .setAxml (some exAxml), .write [4, 5, 6, 7, 8, 9]]).length = 168
     ∧ closedFile exFmt none (some []) none false [] = closedFile exFmt none none none false [] := by decide +kernel
+
+/-- sample-level history: two stereo 16-bit blocks (one frame, then two frames with a clipped and a
+non-representable sample), an empty block, chna set late -/
+def exSOps : List SOp :=
+  [.write [[1, -1]], .setChna (some [exEntry]), .write [], .write [[3 / 2, 1 / 3], [0, -1 / 32767]]]
+
+example : BlocksOK 2 exSOps := by simp [exSOps, BlocksOK]
+example : FmtOK ⟨2, 48000, 16⟩ := ⟨by decide, by decide, by decide, by decide, by decide, by decide, by decide⟩
+example : Fmt.okB ⟨2, 48000, 16⟩ = true ∧ chnaOkB (some [exEntry]) = true ∧ Fmt.okB ⟨2, 48000, 8⟩ = false ∧
+    Fmt.packable ⟨2, 48000, 8⟩ = true := by decide
+
+set_option maxRecDepth 100000 in
+/-- the model computes on it: three frames come back; 3/2 is clipped to 1, 1/3 comes back as the double nearest
+to 10922/32767, the representable values ±1, 0 exactly, -1/32767 as the double nearest to it -/
+example : (closedFileS ⟨2, 48000, 16⟩ none none none false exSOps).map (fun f =>
+      (openReader f).toOption.map (fun r => (r.1.frames, (readSamples f r.1.fmt r.2.1 r.2.1.data 3).2)))
+    = some (some (3, some [[1, -1], [1, Pcm.decode 16 10922], [0, Pcm.decode 16 (-1)]])) := by decide +kernel
 
 end Earverif.Bw64
